@@ -428,7 +428,9 @@ class FnTranslator:
         n0 = len(self.pre) if self.pre is not None else 0
         r = f()
         if self.pre is not None and len(self.pre) != n0:
-            raise self.err("an operation that can raise inside %s (evaluated conditionally)" % what, node)
+            e = self.err("an operation that can raise inside %s (evaluated conditionally)" % what, node)
+            e.cond_partial = True
+            raise e
         return r
 
     def expr(self, n, env, want=None):
@@ -918,7 +920,18 @@ class FnTranslator:
         return v == loop.idx or any(v == c for c, _ in loop.carried)
 
     def if_(self, s, rest, env, ctx, k):
-        (c, _), pre = self.with_pre(lambda: self.expr(s.test, env, "bool"))
+        try:
+            (c, _), pre = self.with_pre(lambda: self.expr(s.test, env, "bool"))
+        except Unsupported as e:
+            # `if a and b:` with an operation in b that can raise: b is evaluated only when a holds, which
+            # is exactly `if a: (if b: BODY else: ELSE) else: ELSE`
+            if getattr(e, "cond_partial", False) and isinstance(s.test, ast.BoolOp) and isinstance(s.test.op, ast.And):
+                first, others = s.test.values[0], s.test.values[1:]
+                inner_test = others[0] if len(others) == 1 else ast.copy_location(ast.BoolOp(op=ast.And(), values=others), s.test)
+                inner = ast.copy_location(ast.If(test=inner_test, body=s.body, orelse=s.orelse), s)
+                outer = ast.copy_location(ast.If(test=first, body=[inner], orelse=s.orelse), s)
+                return self.if_(outer, rest, env, ctx, k)
+            raise
         if rest and exits(s.body) + exits(s.orelse) == 0:
             raise self.err("unreachable statement after an if whose branches all return", rest[0])
         if self.simple(s.body) and self.simple(s.orelse) and rest:
@@ -1286,6 +1299,74 @@ def function_source(src_lines, node):
     return textwrap.dedent("".join(src_lines[start - 1:node.end_lineno]))
 
 
+def guard_function(node, fspec, qual):
+    """Guard mode (for functions outside the subset): only the `if` tests that enclose ONE designated
+    statement are translated.  Returns a synthetic function
+
+        def g(<objects>, <locals>):           # plus the declared attributes of the objects
+            if test1:                         # outermost enclosing test (negated when the target sits
+                if test2:                     # in the else branch)
+                    return True
+                return False
+            return False
+
+    whose translation is the condition, over the declared attributes and locals, under which control
+    reaches the target from the start of the innermost enclosing loop body (or of the function).  How
+    the locals / attributes got their values is NOT translated."""
+    target = fspec["target"]
+    found = []
+
+    def walk(stmts, path):
+        for st in stmts:
+            try:
+                txt = ast.unparse(st)
+            except Exception:
+                txt = None
+            if txt == target:
+                found.append(list(path))
+            if isinstance(st, ast.If):
+                walk(st.body, path + [(st.test, True)])
+                walk(st.orelse, path + [(st.test, False)])
+            elif isinstance(st, (ast.For, ast.While)):
+                if isinstance(st, ast.While):
+                    walk(st.body, [("while", None)])
+                else:
+                    walk(st.body, [])
+                walk(st.orelse, path)
+            elif isinstance(st, (ast.With, ast.Try)) or type(st).__name__ in ("TryStar", "Match", "AsyncFor", "AsyncWith"):
+                for fld in ("body", "orelse", "finalbody"):
+                    walk(getattr(st, fld, []) or [], path + [("block", None)])
+                for h in getattr(st, "handlers", []) or []:
+                    walk(h.body, path + [("block", None)])
+                for c in getattr(st, "cases", []) or []:
+                    walk(c.body, path + [("block", None)])
+            elif isinstance(st, (ast.FunctionDef, ast.AsyncFunctionDef, ast.ClassDef)):
+                walk(st.body, [("block", None)])
+    walk(node.body, [])
+    if len(found) != 1:
+        raise Unsupported("guard mode: the statement `%s` occurs %d times in the function (exactly one expected)"
+                          % (target, len(found)), node, qual)
+    path = found[0]
+    if any(pol is None for _, pol in path):
+        raise Unsupported("guard mode: the statement `%s` sits under a while / with / try / nested def" % target, node, qual)
+    body = [ast.Return(value=ast.Constant(value=True))]
+    for test, pol in reversed(path):
+        no = [ast.Return(value=ast.Constant(value=False))]
+        body = [ast.If(test=test, body=body if pol else no, orelse=no if pol else body)]
+    names = list(fspec.get("objects", [])) + list(fspec.get("locals", {}))
+    fn = ast.FunctionDef(name=node.name, args=ast.arguments(posonlyargs=[], args=[ast.arg(arg=a) for a in names], vararg=None,
+                                                            kwonlyargs=[], kw_defaults=[], kwarg=None, defaults=[]),
+                         body=body, decorator_list=[], returns=None, type_comment=None)
+    ast.copy_location(fn, node)
+    for n in ast.walk(fn):
+        if not hasattr(n, "lineno"):
+            ast.copy_location(n, node)
+    sp = dict(fspec)
+    sp["returns"] = "bool"
+    sp["params"] = dict({o: "obj" for o in fspec.get("objects", [])}, **fspec.get("locals", {}))
+    return fn, sp
+
+
 def function_infos(repo, spec):
     """[{"function", "sha1", "source"}] of the functions named by the spec, without translating them."""
     path = os.path.join(repo, spec["source"])
@@ -1293,10 +1374,13 @@ def function_infos(repo, spec):
     tree = ast.parse(src, filename=path)
     lines = src.splitlines(keepends=True)
     out = []
-    for cls, name in spec["functions"]:
+    for item in spec["functions"]:
+        cls, name = item[0], item[1]
         node = find_function(tree, cls or None, name, spec["source"])
         fs = function_source(lines, node)
-        out.append({"function": (cls + "." if cls else "") + name, "sha1": hashlib.sha1(fs.encode()).hexdigest(), "source": fs})
+        qual = (cls + "." if cls else "") + name
+        if qual not in [i["function"] for i in out]:
+            out.append({"function": qual, "sha1": hashlib.sha1(fs.encode()).hexdigest(), "source": fs})
     return out
 
 
@@ -1307,18 +1391,28 @@ def translate_spec(repo, spec):
     tree = ast.parse(src, filename=path)
     lines = src.splitlines(keepends=True)
     done, parts, info = {}, [], []
-    for cls, name in spec["functions"]:
+    for item in spec["functions"]:
+        cls, name = item[0], item[1]
         qual = (cls + "." if cls else "") + name
+        key = qual + ("#" + item[2] if len(item) > 2 else "")
         node = find_function(tree, cls or None, name, spec["source"])
         fs = function_source(lines, node)
-        info.append({"function": qual, "sha1": hashlib.sha1(fs.encode()).hexdigest(), "source": fs})
-        fspec = spec.get("types", {}).get(qual)
+        if qual not in [i["function"] for i in info]:
+            info.append({"function": qual, "sha1": hashlib.sha1(fs.encode()).hexdigest(), "source": fs})
+        fspec = spec.get("types", {}).get(key)
         if fspec is None:
-            raise Unsupported("no typing for %s in the spec" % qual)
-        ft = FnTranslator(spec["module"], cls or None, name, fspec, node, done)
-        parts.append("(* %s.%s, lines %d-%d of %s, sha1 %s *)\n%s" % (
-            cls or "<module>", name, node.lineno, node.end_lineno, spec["source"], info[-1]["sha1"], ft.translate()))
-        done[qual] = ft
+            raise Unsupported("no typing for %s in the spec" % key)
+        if fspec.get("mode") == "guard":
+            gnode, gspec = guard_function(node, fspec, qual)
+            ft = FnTranslator(spec["module"], None, name, gspec, gnode, done)
+            ft.qual = key
+            what = "guard of `%s` in %s" % (fspec["target"], qual)
+        else:
+            ft = FnTranslator(spec["module"], cls or None, name, fspec, node, done)
+            what = "%s.%s" % (cls or "<module>", name)
+        parts.append("(* %s, lines %d-%d of %s, sha1 %s *)\n%s" % (
+            what, node.lineno, node.end_lineno, spec["source"], hashlib.sha1(fs.encode()).hexdigest(), ft.translate()))
+        done[key] = ft
     head = ("(* GENERATED by tools/py2coq.py from %s - never edit, never commit.\n"
             "   Shallow Gallina definitions of: %s. *)\n"
             "From Coq Require Import List ZArith Bool Arith Floats.\nImport ListNotations.\n\n"
